@@ -413,7 +413,7 @@ func TestVerifWiringC14(t *testing.T) {
 	pairs := rig.CertPairsPEM(3)
 	vstat.Run(t, vstat.Spec[certScript]{Col: colC14, Quick: 40, Thorough: 400,
 		Gen: func(t *rapid.T) certScript {
-			return certScript{SNI: rapid.SampledFrom([]string{"", "", "verif.test", "other.example"}).Draw(t, "sni"), Style: rapid.SampledFrom([]string{"inplace", "rename", "k8s-swap", "k8s-swap"}).Draw(t, "style"), ViaEnv: rapid.Bool().Draw(t, "env"),
+			return certScript{SNI: rapid.SampledFrom([]string{"", "", "p1.verif.test", "p1.verif.test", "p2.verif.test", "other.example"}).Draw(t, "sni"), Style: rapid.SampledFrom([]string{"inplace", "rename", "k8s-swap", "k8s-swap"}).Draw(t, "style"), ViaEnv: rapid.Bool().Draw(t, "env"),
 				MaxTLS: rapid.SampledFrom([]uint16{0x0303, 0x0304}).Draw(t, "tls"), ALPN: rapid.SampledFrom([]string{"h2", "http/1.1", ""}).Draw(t, "alpn")}
 		},
 		Exec: func(s certScript) *vstat.Violation {
